@@ -141,6 +141,71 @@ Definition strip (k : kind) (v : val) : val := strip_by (malleable k) (removed k
    metadata field, which is not part of the encoding. *)
 Definition content (k : kind) (v : val) : val := erase (kind_ty k) (strip k v).
 
+(* ---------------------------------------------------------------- single-field change *)
+(* [poke t q sel x v]: v with the value of the field at path q replaced by x.  Each vector
+   crossed on the way consumes one index of [sel] (which element is changed); a path through
+   an enum only applies to a value of that variant.  Used to state "changing a malleable
+   field (of any input / output) to anything whatsoever". *)
+Fixpoint set_nth {A} (i : nat) (f : A -> A) (l : list A) : list A :=
+  match l, i with
+  | [], _ => []
+  | a :: r, O => f a :: r
+  | a :: r, S j => a :: set_nth j f r
+  end.
+
+Fixpoint poke (t : ty) (q : path) (sel : list nat) (x : val) (v : val) {struct t} : val :=
+  match t, v with
+  | TVec t', VL vs =>
+      match sel with
+      | i :: sel' => VL (set_nth i (poke t' q sel' x) vs)
+      | [] => v
+      end
+  | TStruct _ fs, VS vs =>
+      match q with n :: q' => VS (poke_fields fs n q' sel x vs) | [] => v end
+  | TEnum vars, VE i vs =>
+      match q with n :: q' => VE i (poke_variants vars i n q' sel x vs) | [] => v end
+  | TInput cf cs cp ct mf mcs mcp mds mdp, VE i [y] =>
+      match q with
+      | n :: q' =>
+          if String.eqb (nth i input_names "") n
+          then VE i [poke (input_sel i cs cp ct mcs mcp mds mdp) q' sel x y] else v
+      | [] => v
+      end
+  | TPeek al, VE i [y] =>
+      match q with n :: q' => VE i [poke_alts al i n q' sel x y] | [] => v end
+  | _, _ => v
+  end
+with poke_fields (fs : fields) (n : string) (q' : path) (sel : list nat) (x : val) (vs : list val)
+    {struct fs} : list val :=
+  match fs, vs with
+  | FCons n' _ t r, v :: vs' =>
+      if String.eqb n' n
+      then (match q' with [] => x | _ => poke t q' sel x v end) :: vs'
+      else v :: poke_fields r n q' sel x vs'
+  | _, _ => vs
+  end
+with poke_variants (vars : variants) (i : nat) (n : string) (q' : path) (sel : list nat) (x : val)
+    (vs : list val) {struct vars} : list val :=
+  match vars with
+  | VNil => vs
+  | VCons n' _ fs r =>
+      match i with
+      | O => if String.eqb n' n
+             then (match q' with m :: q'' => poke_fields fs m q'' sel x vs | [] => vs end) else vs
+      | S j => poke_variants r j n q' sel x vs
+      end
+  end
+with poke_alts (al : alts) (i : nat) (n : string) (q' : path) (sel : list nat) (x : val) (y : val)
+    {struct al} : val :=
+  match al with
+  | ANil => y
+  | ACons n' _ t r =>
+      match i with
+      | O => if String.eqb n' n then poke t q' sel x y else y
+      | S j => poke_alts r j n q' sel x y
+      end
+  end.
+
 (* ---------------------------------------------------------------- the id *)
 Definition id_preimage (c : N) (k : kind) (v : val) : bytes := be8 c ++ enc (kind_ty k) (strip k v).
 
